@@ -45,10 +45,33 @@ class Run:
         shutil.rmtree(os.path.join(P.VERIF, "replays", pid), ignore_errors=True)
 
     # ---- the common loop ----------------------------------------------------------------
+    def add_witnesses(self, fids, groups, inputs, options):
+        """append the witness case of each active known finding; they are judged strictly (kf off)"""
+        import findings
+        self.wit = {}          # gi -> (fid, plan entries, accepted labels)
+        for fid in fids:
+            if fid not in findings.WITNESS:
+                continue
+            g, ins, ov, labels = findings.WITNESS[fid](len(groups) + 1)
+            g.maydiverge = False
+            groups.append(g)
+            o = dict(DEFAULT_OPT)
+            o.update(ov)
+            options.append(o)
+            plan = []
+            for i in ins:
+                inputs.append(i)
+                plan.append((len(inputs) - 1, len(options) - 1))
+            self.wit[g.gi] = (fid, plan, labels)
+        self.kf = list(fids)
+
     def execute(self, groups, inputs, options, plan_for, flagsets, cmp=None, pack_size=300, gen_flags_for=None,
                 timeout_ms=5000, shards=12, classify=None, lower=None, uclass=None):
         """plan_for(g) -> list of (input index, option index).  Returns (divergences, totals, variants)."""
         pigeon = P.build_pigeon()
+        wit = getattr(self, "wit", {})
+        user_plan_for = plan_for
+        plan_for = lambda g: wit[g.gi][1] if g.gi in wit else user_plan_for(g)
         for i, g in enumerate(groups):
             assert g.gi == i + 1, "group ids must be 1..N"
         packs = pack_groups(groups, pack_size)
@@ -82,8 +105,26 @@ class Run:
         gp = os.path.join(P.workdir(), "groups.ndjson")
         dump_groups(groups, gp)
         tcase = dict(inputs=inputs, options=options, lower=lower or [[0, 0]], uclass=uclass or [[0]],
-                     cmp=dict(dict(store=True, errs=True), **(cmp or {})))
+                     cmp=dict(dict(store=True, errs=True), **(cmp or {})),
+                     kf=getattr(self, "kf", []) or ["-"], strict=sorted(wit) or [0])
         div, tot = P.validate_t1(gp, tcase, obs, shards=shards)
+        # witnesses of known findings: a divergence with the finding's symptom re-confirms it
+        import findings
+        confirmed, rest = set(), []
+        for d in div:
+            w = wit.get(d["gi"])
+            if w and d["df"] in w[2]:
+                confirmed.add(w[0])
+            else:
+                rest.append(d)
+        for gi, w in wit.items():
+            if w[0] in confirmed:
+                k = "%s: %s" % (w[0], findings.what(w[0]))
+                if k not in self.known:
+                    self.known.append(k)
+            else:
+                self.notes.append("known finding %s: its witness no longer fails on this tree (entry can be retired)" % w[0])
+        div = rest
         self.variants, self.groups, self.inputs, self.options = variants, groups, inputs, options
         return div, tot
 
